@@ -135,6 +135,7 @@ class MasterWorld:
         self.cellmonitors = cfg.get('cellmonitors', [])
         self.down_since_L = {}
         self.marked = set()
+        self.readd_unhandled = False
         self.truth = {}         # server -> 'up' | 'down' | 'frozen' (harness truth)
         self.pending_truth = []  # freeze/unfreeze events not yet processed
         self.bl_idx = 0
@@ -161,6 +162,13 @@ class MasterWorld:
 
     def tmpl_of(self, name):
         return name.split('#')[0].split('.', 1)[1]
+
+    @property
+    def exception_site_suffix(self):
+        if self.readd_unhandled:
+            return (' [server deleted and re-created before the master '
+                    'handled the deletion]')
+        return ''
 
     def flag(self, clause, site, detail):
         self.viol.append({'clause': clause, 'site': site, 'detail': detail})
@@ -211,6 +219,7 @@ class MasterWorld:
         self.records_before_start = sorted(_mm.placement_dump(self))
         m = self.new_master()
         self.undelivered = []
+        self.readd_unhandled = False
         m.load_model()
         self._init_schedule()
         self.after_cycle('init_schedule')
@@ -376,6 +385,11 @@ class MasterWorld:
             self.deliver(z.EVENTS, z.SERVER_PRESENCE)
         elif kind == 'srv+':
             name, v = body[1], body[2]
+            srv = self.master.servers.get(name)
+            if srv is not None and srv.apps:
+                # the admin re-creates a server whose deletion (which removed
+                # its placement records) the master has not handled yet
+                self.readd_unhandled = True
             spec = cfg['servers'][name]
             var = spec['variants'][v]
             masterapi.create_server(admin, name, spec['parent'],
@@ -733,7 +747,17 @@ class MasterWorld:
             names.update(self.children(z.path.placement(srv)))
         rank = {n: i for i, n in enumerate(sorted(names, key=cellworld._seq))}
 
+        # /events nodes are sequential: only their relative order matters
+        evs = set(self.children(z.EVENTS))
+        for p_, kids_ in self.undelivered:
+            if p_ == z.EVENTS:
+                evs.update(kids_)
+        ev_rank = {e: i for i, e in enumerate(
+            sorted(evs, key=lambda e: int(e.rsplit('-', 1)[1])))}
+
         def ren(n):
+            if n in ev_rank:
+                return (n.rsplit('-', 1)[0], ev_rank[n])
             return (self.tmpl_of(n), rank[n]) if n in rank else n
         # ctime ranks among presence / placement nodes
         stamps = set()
@@ -778,18 +802,19 @@ class MasterWorld:
             tree.find(z.ALLOCATIONS).data,
             tuple(sorted((g, tree.find(z.path.identity_group(g)).data)
                          for g in self.children(z.IDENTITY_GROUPS))),
-            tuple(sorted((e, tree.find(z.path.event(e)).data)
+            tuple(sorted((ren(e), tree.find(z.path.event(e)).data)
                          for e in self.children(z.EVENTS))),
             tuple(self.children(z.CELL)),
             tuple(sorted(self.children(z.BLACKEDOUT_SERVERS))),
             tuple(sorted(self.truth.items())), self.bl_idx,
-            tuple(self.pending_truth),
+            tuple(self.pending_truth), self.readd_unhandled,
             tuple(sorted(ren(n) for n in self.children(z.FINISHED))),
             (tree.find(z.BLACKEDOUT_APPS).data
              if tree.find(z.BLACKEDOUT_APPS) else None),
         )
         m = self.master
-        und = tuple((p, tuple(ren(k) if '#' in k else k for k in kids))
+        und = tuple((p, tuple(ren(k) if ('#' in k or k in ev_rank) else k
+                              for k in kids))
                     for p, kids in self.undelivered)
         roots = [b for b in m.buckets.values()
                  if b.parent is None and b is not m.cell]
